@@ -795,22 +795,18 @@ theorem readChainedSeqContext1_erase (b : Bytes) (pos : Nat) :
     rw [this]
     rfl
 
-/-- BRIDGE, dispatch: the model of `readGsubSubtable` for lookup type 6 is
-`SfntV.Otl.Ctx.readSubtable 6`, EXCEPT where the key `10*6+format` of gsub.go:41 collides with the
-key of another reader: format words 11 (key 71 = 7_1, extension) and 21 (key 81 = 8_1), and the
-words ≥ 65476 where the uint16 sum wraps (e.g. 0xFFCF ↦ 1_1).  There the Go code (and this model)
-run the other reader; the value-level model answers `invalid`. -/
-theorem readChained_erase (b : Bytes) (pos : Nat)
-    (h : ∀ f, wordAt b pos = some f → f < 65476 ∧ f ≠ 11 ∧ f ≠ 21) :
+/-- BRIDGE, dispatch (all bytes, all positions, no side condition): the model of the repaired
+`readGsubSubtable` for lookup type 6 without its cost is `SfntV.Otl.Ctx.readSubtable 6` on the
+bytes from `pos` on.  (Before the repair C02-dispatch-key the two differed on the format words 11,
+21 and ≥ 65476, whose uint16 key `10*6+format` was the key of another reader: `readChainedOld`,
+`readChainedOld_collision`.) -/
+theorem readChained_erase (b : Bytes) (pos : Nat) :
     erase (readChained b pos) = SfntV.Otl.Ctx.readSubtable 6 (b.drop pos) := by
-  unfold readChained SfntV.Otl.Ctx.readSubtable
+  rw [readChained_eq]
+  unfold SfntV.Otl.Ctx.readSubtable
   rcases word_cases "gsub.go:36#ReadUint16" b pos with ⟨f, hf, hws⟩ | ⟨hf, hws⟩
-  · obtain ⟨hw, _, _⟩ := readU16_ok hf
-    obtain ⟨hlt, h11, h21⟩ := h f hw
-    rw [hf, ok_bind, hws]
+  · rw [hf, ok_bind, hws]
     dsimp only
-    have hk : (60 + f) % 65536 = 60 + f := Nat.mod_eq_of_lt (by omega)
-    rw [hk]
     have h5 : ((6 : Nat) == 5) = false := by decide
     have h6 : ((6 : Nat) == 6) = true := by decide
     simp only [h5, h6, Bool.false_and, Bool.true_and, Bool.false_eq_true, if_false]
@@ -821,9 +817,8 @@ theorem readChained_erase (b : Bytes) (pos : Nat)
     by_cases h2 : f = 2
     · subst h2
       rw [if_neg (by omega), if_pos rfl]
-      simp only [if_true, BEq.rfl]
       have : ((2 : Nat) == 1) = false := by decide
-      simp only [this, Bool.false_eq_true, if_false]
+      simp only [this, Bool.false_eq_true, if_false, BEq.rfl, if_true]
       exact readChainedSeqContext2_erase b pos
     by_cases h3 : f = 3
     · subst h3
@@ -832,17 +827,12 @@ theorem readChained_erase (b : Bytes) (pos : Nat)
       have e2 : ((3 : Nat) == 2) = false := by decide
       simp only [e1, e2, Bool.false_eq_true, if_false, BEq.rfl, if_true]
       exact readChainedSeqContext3_erase b pos
-    · rw [if_neg (by omega), if_neg (by omega), if_neg (by omega)]
+    · rw [if_neg h1, if_neg h2, if_neg h3]
       have e1 : (f == 1) = false := by simpa using h1
       have e2 : (f == 2) = false := by simpa using h2
       have e3 : (f == 3) = false := by simpa using h3
       simp only [e1, e2, e3, Bool.false_eq_true, if_false]
-      split
-      · rename_i hc
-        exfalso
-        simp only [otherKeys, List.contains_cons, List.contains_nil, Bool.or_false, Bool.or_eq_true, beq_iff_eq] at hc
-        omega
-      · rfl
+      rfl
   · rw [hf, hws]
     rfl
 
